@@ -35,24 +35,28 @@ impl Out {
 #[derive(Default)]
 pub struct Session {
     pub crdt: engines::crdt::CrdtSession,
+    pub sync: engines::sync::SyncSession,
 }
 
 /// Execute one input line on the real code; every engine routes through here so that generated
 /// cases and replayed cases take exactly the same path.
-pub fn exec_line(sess: &mut Session, line: &str, out: &mut Out) {
+pub fn exec_line(sess: &mut Session, line: &str, out: &mut Out) -> Vec<String> {
     out.line(&format!("> {}", line));
     let toks: Vec<&str> = line.split(' ').collect();
     let res = catch_unwind(AssertUnwindSafe(|| engines::dispatch(sess, &toks)));
     match res {
         Ok(lines) => {
-            for l in lines {
+            for l in &lines {
                 if l.starts_with("! ") {
                     out.count("oracle_failures");
-                    out.line(&l);
+                    out.line(l);
+                } else if l.starts_with("#") {
+                    out.line(l);
                 } else {
                     out.line(&format!("< {}", l));
                 }
             }
+            lines
         }
         Err(e) => {
             let msg = if let Some(s) = e.downcast_ref::<String>() {
@@ -66,6 +70,7 @@ pub fn exec_line(sess: &mut Session, line: &str, out: &mut Out) {
             let msg = msg.replace('\n', " ");
             out.line("< panic");
             out.line(&format!("#panic-message {}", msg));
+            vec!["panic".to_string()]
         }
     }
 }
